@@ -40,9 +40,31 @@ func Equal(a, b any) bool { //nolint: gocyclo
 			return ra.IsNil() == rb.IsNil()
 		}
 		return a == b
+	case reflect.Map:
+		if ra.Len() != rb.Len() || ra.Type().Key() != rb.Type().Key() {
+			return false
+		}
+		for _, k := range ra.MapKeys() {
+			bv := rb.MapIndex(k)
+			if !bv.IsValid() || !Equal(ra.MapIndex(k).Interface(), bv.Interface()) {
+				return false
+			}
+		}
+		return true
 	default:
-		return a == b
+		return safeEqual(a, b)
 	}
+}
+
+// safeEqual is a == b, except that values of uncomparable dynamic types
+// (which make == panic) are compared structurally.
+func safeEqual(a, b any) (eq bool) {
+	defer func() {
+		if recover() != nil {
+			eq = reflect.DeepEqual(a, b)
+		}
+	}()
+	return a == b
 }
 
 // Less returns a bool indicating whether a < b.
